@@ -12,7 +12,6 @@ import (
 
 type Locker = realsync.Locker
 type WaitGroup = realsync.WaitGroup
-type Pool = realsync.Pool
 type Map = realsync.Map
 type Cond = realsync.Cond
 
@@ -124,4 +123,44 @@ func (o *Once) Do(f func()) {
 		defer func() { o.done = true }()
 		f()
 	}
+}
+
+// Pool: under a controlled execution Get and Put are scheduling points and Get always returns the
+// most recently Put object - the behaviour sync.Pool permits that is hardest on a caller who keeps
+// using an object after putting it back. Outside a controlled execution the real pool is used.
+type Pool struct {
+	New   func() interface{}
+	real  realsync.Pool
+	items []interface{}
+}
+
+func (p *Pool) Get() interface{} {
+	if !vsched.Active() {
+		if v := p.real.Get(); v != nil {
+			return v
+		}
+		if p.New != nil {
+			return p.New()
+		}
+		return nil
+	}
+	vsched.Point()
+	if n := len(p.items); n > 0 {
+		x := p.items[n-1]
+		p.items = p.items[:n-1]
+		return x
+	}
+	if p.New != nil {
+		return p.New()
+	}
+	return nil
+}
+
+func (p *Pool) Put(x interface{}) {
+	if !vsched.Active() {
+		p.real.Put(x)
+		return
+	}
+	p.items = append(p.items, x)
+	vsched.Point()
 }
